@@ -1297,8 +1297,8 @@ func buildContractFilter(filter contracts.ContractFilter) (string, []any, error)
 	}
 
 	if filter.MinNegotiationHeight > 0 && filter.MaxNegotiationHeight > 0 {
-		if filter.MinNegotiationHeight < filter.MaxNegotiationHeight {
-			return "", nil, errors.New("min negotiation height must be less than max negotiation height")
+		if filter.MinNegotiationHeight > filter.MaxNegotiationHeight {
+			return "", nil, errors.New("min negotiation height must be less than or equal to max negotiation height")
 		}
 		whereClause = append(whereClause, `c.negotiation_height BETWEEN ? AND ?`)
 		queryParams = append(queryParams, filter.MinNegotiationHeight, filter.MaxNegotiationHeight)
@@ -1311,8 +1311,8 @@ func buildContractFilter(filter contracts.ContractFilter) (string, []any, error)
 	}
 
 	if filter.MinExpirationHeight > 0 && filter.MaxExpirationHeight > 0 {
-		if filter.MinExpirationHeight < filter.MaxExpirationHeight {
-			return "", nil, errors.New("min expiration height must be less than max expiration height")
+		if filter.MinExpirationHeight > filter.MaxExpirationHeight {
+			return "", nil, errors.New("min expiration height must be less than or equal to max expiration height")
 		}
 		whereClause = append(whereClause, `c.window_start BETWEEN ? AND ?`)
 		queryParams = append(queryParams, filter.MinExpirationHeight, filter.MaxExpirationHeight)
@@ -1382,8 +1382,8 @@ func buildV2ContractFilter(filter contracts.V2ContractFilter) (string, []any, er
 	}
 
 	if filter.MinNegotiationHeight > 0 && filter.MaxNegotiationHeight > 0 {
-		if filter.MinNegotiationHeight < filter.MaxNegotiationHeight {
-			return "", nil, errors.New("min negotiation height must be less than max negotiation height")
+		if filter.MinNegotiationHeight > filter.MaxNegotiationHeight {
+			return "", nil, errors.New("min negotiation height must be less than or equal to max negotiation height")
 		}
 		whereClause = append(whereClause, `c.negotiation_height BETWEEN ? AND ?`)
 		queryParams = append(queryParams, filter.MinNegotiationHeight, filter.MaxNegotiationHeight)
@@ -1396,8 +1396,8 @@ func buildV2ContractFilter(filter contracts.V2ContractFilter) (string, []any, er
 	}
 
 	if filter.MinExpirationHeight > 0 && filter.MaxExpirationHeight > 0 {
-		if filter.MinExpirationHeight < filter.MaxExpirationHeight {
-			return "", nil, errors.New("min expiration height must be less than max expiration height")
+		if filter.MinExpirationHeight > filter.MaxExpirationHeight {
+			return "", nil, errors.New("min expiration height must be less than or equal to max expiration height")
 		}
 		whereClause = append(whereClause, `c.expiration_height BETWEEN ? AND ?`)
 		queryParams = append(queryParams, filter.MinExpirationHeight, filter.MaxExpirationHeight)
